@@ -725,25 +725,50 @@ def fmt_to_z3(v):
 # Source-side layout: field and variant indices of the crate's types (declaration order = MIR index)
 # ------------------------------------------------------------------------------------------------------------
 
+def _matching_brace(src, i):
+    d = 0
+    for k in range(i, len(src)):
+        if src[k] == '{':
+            d += 1
+        elif src[k] == '}':
+            d -= 1
+            if d == 0:
+                return k
+    return -1
+
+
 def layouts():
+    """field names of every struct and variant names of every enum declared anywhere in src/*.rs (top level or inside a function),
+    in declaration order (= MIR field / discriminant index)"""
     structs, enums = {}, {}
-    for rel in ('src/ast.rs', 'src/symbol.rs', 'src/diagnostic.rs'):
+    import glob
+    files = ['src/ast.rs', 'src/symbol.rs', 'src/diagnostic.rs'] + sorted(os.path.relpath(f, REPO) for f in glob.glob(os.path.join(REPO, 'src', '*.rs')))
+    seen = set()
+    for rel in files:
+        if rel in seen:
+            continue
+        seen.add(rel)
         try:
             src = open(os.path.join(REPO, rel)).read()
         except OSError:
             continue
         src = re.sub(r'//[^\n]*', '', src)
-        for m in re.finditer(r'\bstruct (\w+)(?:<[^>]*>)?\s*\{(.*?)\n\}', src, re.S):
-            body = re.sub(r'#\[[^\]]*\]', '', m.group(2))
-            structs[m.group(1)] = re.findall(r'(?:pub(?:\([^)]*\))? )?(\w+)\s*:', body)
-        for m in re.finditer(r'\benum (\w+)(?:<[^>]*>)?\s*\{(.*?)\n\}', src, re.S):
-            body = re.sub(r'#\[[^\]]*\]', '', m.group(2))
-            names = []
-            for v in _split_top(body):
-                mm = re.match(r'(\w+)', v.strip())
-                if mm:
-                    names.append(mm.group(1))
-            enums[m.group(1)] = names
+        for m in re.finditer(r'\b(struct|enum) (\w+)(?:<[^>{;]*>)?\s*(?:where[^{]*)?\{', src):
+            e = _matching_brace(src, m.end() - 1)
+            if e < 0:
+                continue
+            body = re.sub(r'#\[[^\]]*\]', '', src[m.end():e])
+            if m.group(1) == 'struct':
+                if m.group(2) not in structs:
+                    structs[m.group(2)] = [re.match(r'\s*(?:pub(?:\([^)]*\))? )?(\w+)\s*:', f).group(1) for f in _split_top(body) if re.match(r'\s*(?:pub(?:\([^)]*\))? )?(\w+)\s*:', f)]
+            else:
+                names = []
+                for v in _split_top(body):
+                    mm = re.match(r'\s*(\w+)', v)
+                    if mm:
+                        names.append(mm.group(1))
+                if m.group(2) not in enums:
+                    enums[m.group(2)] = names
     return structs, enums
 
 
